@@ -63,14 +63,20 @@ static bool make_seq_is_neutral(const InterrogateMakeSeq &s) {
          str_neutral(s._comment) && s._alt_names.empty() && s.get_library_name() == 0 && s.get_module_name() == 0;
 }
 
-// one database per entry count 0..NENT (concrete loop, one query).  The neutral record is located through an
+// one database per entry count 0..NENT (concrete loop, one query).  Record contents are concrete: results are compared
+// by address, and a symbolic input that influences no assertion is sliced out of the counterexample trace, which would
+// misalign the native replay.  The neutral record is located through an
 // empty database (a concrete path), so that its fields are inspected through a concrete pointer; the result of the
 // symbolic query is then compared by address.
 #define INDEX_HARNESS(NAME, MAP, GET, REC, NEUTRAL, INSERT, STORED, WHAT)                                       \
   extern "C" void NAME() {                                                                                      \
     __ll2c_global_ctors();                                                                                      \
-    const REC *bogus = 0;                                                                                       \
-    for (int n = 0; n <= NENT; n++) {                                                                           \
+    const REC *bogus = &(new InterrogateDatabase)->GET(0);                                                      \
+    ASSERT(NEUTRAL(*bogus), "C20 " WHAT ": an unknown index returns the neutral record");                      \
+    /* the empty database comes last: its query index influences nothing, is therefore sliced out of a  */      \
+    /* counterexample trace and must not shift the inputs recorded for the other databases              */      \
+    for (int c = 1; c <= NENT + 1; c++) {                                                                       \
+      int n = c <= NENT ? c : 0;                                                                                \
       InterrogateDatabase *db = new InterrogateDatabase;                                                        \
       int idx = nondet_int(); /* one query index per database: the sub-problems stay independent */            \
       for (int j = 1; j <= n; j++) { INSERT; }                                                                  \
@@ -82,10 +88,6 @@ static bool make_seq_is_neutral(const InterrogateMakeSeq &s) {
         for (auto it = db->MAP.begin(); j < n; ++it, ++j) stored[j] = STORED;                                   \
       }                                                                                                         \
       const REC *r = &db->GET(idx);                                                                             \
-      if (n == 0) {                                                                                             \
-        bogus = r;                                                                                              \
-        ASSERT(NEUTRAL(*bogus), "C20 " WHAT ": an unknown index returns the neutral record");                  \
-      }                                                                                                         \
       const REC *want = bogus;                                                                                  \
       for (int j = 0; j < n; j++) if (keys[j] == idx) want = stored[j];                                         \
       ASSERT(r == want, "C20 " WHAT ": a known index returns exactly the stored record, an unknown one the neutral record"); \
@@ -94,17 +96,17 @@ static bool make_seq_is_neutral(const InterrogateMakeSeq &s) {
   }
 
 INDEX_HARNESS(harness_c20_idx_type, _type_map, get_type, InterrogateType, type_is_neutral,
-              db->_type_map[j]._flags = nondet_int(), &it->second, "get_type")
+              db->_type_map[j]._flags = j, &it->second, "get_type")
 INDEX_HARNESS(harness_c20_idx_function, _function_map, get_function, InterrogateFunction, function_is_neutral,
-              (db->_function_map[j] = new InterrogateFunction)->_flags = nondet_int(), it->second, "get_function")
+              (db->_function_map[j] = new InterrogateFunction)->_flags = j, it->second, "get_function")
 INDEX_HARNESS(harness_c20_idx_wrapper, _wrapper_map, get_wrapper, InterrogateFunctionWrapper, wrapper_is_neutral,
-              db->_wrapper_map[j]._flags = nondet_int(), &it->second, "get_wrapper")
+              db->_wrapper_map[j]._flags = j, &it->second, "get_wrapper")
 INDEX_HARNESS(harness_c20_idx_manifest, _manifest_map, get_manifest, InterrogateManifest, manifest_is_neutral,
-              db->_manifest_map[j]._flags = nondet_int(), &it->second, "get_manifest")
+              db->_manifest_map[j]._flags = j, &it->second, "get_manifest")
 INDEX_HARNESS(harness_c20_idx_element, _element_map, get_element, InterrogateElement, element_is_neutral,
-              db->_element_map[j]._flags = nondet_int(), &it->second, "get_element")
+              db->_element_map[j]._flags = j, &it->second, "get_element")
 INDEX_HARNESS(harness_c20_idx_make_seq, _make_seq_map, get_make_seq, InterrogateMakeSeq, make_seq_is_neutral,
-              db->_make_seq_map[j]._length_getter = nondet_int(), &it->second, "get_make_seq")
+              db->_make_seq_map[j]._length_getter = j, &it->second, "get_make_seq")
 
 // ---- the six enumerators: get_global_type/get_all_type/get_global_function/get_all_function/
 //      get_global_manifest/get_global_element with the position over all of int
